@@ -147,7 +147,7 @@ def showOut (o : Out Nat Nat Nat) : String :=
   | .err e => showErr e
   | .hdr _ _ => "ok"
   | .col c => s!"ok{colFp c}"
-  | .text _ _ rows => s!"ok{rows.length}:{hashList (rows.map hashList)}"
+  | .text _ lp rows => s!"ok{rows.length}:{hashList (rows.map hashList)}{showLeap lp}"   -- + the leap field written above the rows
   | .wea ls => s!"ok{ls.length}:{hashList (ls.map fun (m, d, h, a, b) => hashList [m, d, h, a, b])}"
   | .mos _ t => s!"ok{t.length}:{hashList (t.mapIdx fun i l => hashList (mosTime i :: l))}"
   | .dict _ d =>
